@@ -25,6 +25,7 @@ type c16Level struct {
 	RIDEnt uint32  `json:"rid_ent"`
 	RID    obs.Hex `json:"rid"`
 	Extra  bool    `json:"extra"` // an unrelated option (relay port) at this level
+	Order  int     `json:"order,omitempty"` // which permutation of this level's options (relay message, interface-id, relay port, remote-id) is used
 }
 
 type c16Case struct {
@@ -32,6 +33,7 @@ type c16Case struct {
 	Levels []c16Level `json:"levels"`
 	Reply  obs.Hex    `json:"reply"` // reference encoding of the reply placed innermost by the relay-reply builder
 	Wire   bool       `json:"wire"`  // pass the chain over the wire before using it
+	Poison int        `json:"poison,omitempty"` // >0: the builder is first given a chain of this depth whose innermost relay lacks its relay message (refused), then the real one
 }
 
 func treeOf(d dhcpv6.DHCPv6) *refv6.Msg {
@@ -100,6 +102,16 @@ var c16 = newChk("C16", "relay-chain",
 			if lv.HasRID {
 				out.AddOption(&dhcpv6.OptRemoteID{EnterpriseNumber: lv.RIDEnt, RemoteID: append([]byte{}, lv.RID...)})
 			}
+			// relay agents put their options in any order: the relay message first, last or in between
+			if n := len(out.Options.Options); lv.Order > 0 && n > 1 {
+				ps := permutations(n)
+				perm := ps[lv.Order%len(ps)]
+				re := make(dhcpv6.Options, n)
+				for a, b := range perm {
+					re[a] = out.Options.Options[b]
+				}
+				out.Options.Options = re
+			}
 			cur = out
 		}
 		chain := cur
@@ -161,10 +173,30 @@ var c16 = newChk("C16", "relay-chain",
 		if im3, err := chain.GetInnerMessage(); err != nil || sameTree(im3, inner) != "" {
 			return obs.Failf("C16/inner-message-after-replacement", "the original innermost message again", "err=%v", err)
 		}
-		// relay-reply builder
+		// history: a chain the builder must refuse (its innermost relay carries no relay message) comes first
+		if c.Poison > 0 {
+			var bad dhcpv6.DHCPv6 = &dhcpv6.RelayMessage{MessageType: dhcpv6.MessageTypeRelayForward, LinkAddr: net.ParseIP("2001:db8::bad"), PeerAddr: net.ParseIP("fe80::bad")}
+			bad.AddOption(dhcpv6.OptInterfaceID([]byte("poison")))
+			for k := 1; k < c.Poison; k++ {
+				o, err := dhcpv6.EncapsulateRelay(bad, dhcpv6.MessageTypeRelayForward, net.ParseIP("2001:db8::bad"), net.ParseIP("fe80::bad"))
+				if err != nil {
+					return obs.Failf("C16/encapsulate-error", "encapsulation succeeds", "%v", err)
+				}
+				o.AddOption(&dhcpv6.OptRemoteID{EnterpriseNumber: 666, RemoteID: []byte("poison")})
+				bad = o
+			}
+			if _, err := dhcpv6.NewRelayReplFromRelayForw(bad.(*dhcpv6.RelayMessage), reply); err == nil {
+				return obs.Failf("C16/relay-repl/accepts-chain-without-message", "error for a chain without an inner message", "accepted")
+			}
+		}
+		// relay-reply builder; the relay-forward chain it reads is not its to change
+		fwdBefore := chain.ToBytes()
 		rr, err := dhcpv6.NewRelayReplFromRelayForw(chain.(*dhcpv6.RelayMessage), reply)
 		if err != nil {
 			return obs.Failf("C16/relay-repl/error", "a relay-reply chain", "%v", err)
+		}
+		if fwdAfter := chain.ToBytes(); !bytes.Equal(fwdBefore, fwdAfter) {
+			return obs.Failf("C16/relay-repl/changed-its-input", "the relay-forward chain is unchanged by building the reply", "differs at byte %d", firstDiff(fwdBefore, fwdAfter))
 		}
 		rl := relayLevels(rr)
 		if len(rl) != d {
@@ -241,11 +273,12 @@ func genC16() *rapid.Generator[c16Case] {
 		for i := 0; i < d; i++ {
 			lv := c16Level{Link: rapid.SliceOfN(rapid.Byte(), 16, 16).Draw(t, "link"), Peer: rapid.SliceOfN(rapid.Byte(), 16, 16).Draw(t, "peer"),
 				HasIID: rapid.Bool().Draw(t, "iid"), HasRID: rapid.Bool().Draw(t, "rid"), Extra: rapid.IntRange(0, 3).Draw(t, "extra") == 0,
-				RIDEnt: rapid.Uint32().Draw(t, "ent")}
+				RIDEnt: rapid.Uint32().Draw(t, "ent"), Order: rapid.SampledFrom([]int{0, 0, 1, 2, 3, 5, 7, 11, 13, 17, 23}).Draw(t, "order")}
 			lv.IID = gen.Fill(t, rapid.IntRange(0, 12).Draw(t, "iidlen"), "iidv")
 			lv.RID = gen.Fill(t, rapid.IntRange(0, 12).Draw(t, "ridlen"), "ridv")
 			c.Levels = append(c.Levels, lv)
 		}
+		c.Poison = rapid.SampledFrom([]int{0, 0, 1, 2, 3, 5}).Draw(t, "poison")
 		return c
 	})
 }
